@@ -219,7 +219,7 @@ Section Inv.
       (forall s', In s' l -> InvU s' cur (E ++ [aedge cur (Q1 g) (Q2 g)]) /\
                              no_merge s' = no_merge s /\ num_wires s' = num_wires s /\
                              length (uptree s') = length (uptree s) /\
-                             gamma_UB s' = gamma_UB s /\ actions s' = actions s /\ level s' = level s) /\
+                             gamma_UB s' = gamma_UB s /\ actions s' = actions s /\ level s' = level s /\ wiremap s' = wiremap s) /\
       (l = [] -> r1 <> r2 /\ (W < width_at s r1 + width_at s r2 \/ clause_hits s r1 r2)).
   Proof.
     intros I G r1 r2.
@@ -266,7 +266,7 @@ Section Inv.
           unfold merge_roots, is_root. rewrite R1, R2, !Nat.eqb_refl.
           destruct (Nat.eqb_spec r1 r2) as [C|_]; [contradiction|]. simpl.
           eexists; split; [reflexivity|]. split; [|discriminate].
-          intros s' [<-|[]]. split; [|cbn [set_uf no_merge num_wires uptree gamma_UB actions level]; unfold union_roots; rewrite upd_length; repeat split; auto].
+          intros s' [<-|[]]. split; [|cbn [set_uf no_merge num_wires uptree gamma_UB actions level wiremap]; unfold union_roots; rewrite upd_length; repeat split; auto].
           set (mn := Nat.min r1 r2). set (mx := Nat.max r1 r2).
           assert (Hlt : mn < mx) by (unfold mn, mx; lia).
           assert (Hmx : mx < length (uptree s)) by (unfold mx; lia).
@@ -611,7 +611,7 @@ Section Inv.
          num_wires s' = num_wires s /\ length (uptree s') = length (uptree s) /\
          gamma_UB s' = Qmult (gamma_UB s) gam /\
          actions s' = actions s ++ [mkA CutTwoQubitGate g [[1; get_wire s (q1_of g)]; [2; get_wire s (q2_of g)]]] /\
-         level s' = level s) /\
+         level s' = level s /\ wiremap s' = wiremap s) /\
       (l = [] -> g_gamma g = None \/ r1 = r2).
   Proof.
     intros I G r1 r2.
@@ -649,7 +649,7 @@ Section Inv.
          num_wires s' = S (num_wires s) /\ length (uptree s') = length (uptree s) /\
          gamma_UB s' = Qmult (gamma_UB s) left_wire_mult /\
          actions s' = actions s ++ [mkA CutLeftWire g [[1; get_wire s (q1_of g); num_wires s]]] /\
-         level s' = level s) /\
+         level s' = level s /\ wiremap s' = upd (wiremap s) (q1_of g) (num_wires s)) /\
       (l = [] -> length (uptree s) < num_wires s + 1 \/ r1 = r2 \/ W < width_at s r2 + 1).
   Proof.
     intros I G r1 r2 cur'.
@@ -701,7 +701,7 @@ Section Inv.
          num_wires s' = S (num_wires s) /\ length (uptree s') = length (uptree s) /\
          gamma_UB s' = Qmult (gamma_UB s) right_wire_mult /\
          actions s' = actions s ++ [mkA CutRightWire g [[2; get_wire s (q2_of g); num_wires s]]] /\
-         level s' = level s) /\
+         level s' = level s /\ wiremap s' = upd (wiremap s) (q2_of g) (num_wires s)) /\
       (l = [] -> length (uptree s) < num_wires s + 1 \/ r1 = r2 \/ W < width_at s r1 + 1).
   Proof.
     intros I G r1 r2 cur'.
@@ -752,7 +752,8 @@ Section Inv.
          gamma_UB s' = Qmult (gamma_UB s) both_wires_mult /\
          actions s' = actions s ++ [mkA CutBothWires g [[1; get_wire s (q1_of g); num_wires s];
                                                        [2; get_wire s (q2_of g); S (num_wires s)]]] /\
-         level s' = level s) /\
+         level s' = level s /\
+         wiremap s' = upd (upd (wiremap s) (q1_of g) (num_wires s)) (q2_of g) (S (num_wires s))) /\
       (l = [] -> length (uptree s) < num_wires s + 2 \/ W < 2).
   Proof.
     intros I G cur'.
